@@ -79,7 +79,7 @@ def main():
                      "kind_free_text": "deterministic simulator: baton scheduler over real threads, simulated clock and libevent, seeded fault injection; Python drivers generate plans and check recorded histories"}],
         "checks": checks,
         "not_applicable": na,
-        "notes": "fix: commits in /repo: f2ba74f2, 4d700d07, 98844159 (see known_findings.json 'fixed').",
+        "notes": "fix: commits in /repo: d833ddd8, 04b41e61, df8167ce (see known_findings.json 'fixed').",
     }
     with open(os.path.join(HERE, "MANIFEST.json"), "w") as f:
         json.dump(m, f, indent=1)
